@@ -201,8 +201,18 @@ def run_http(ctx: ShardCtx, res: ShardResult, env, checker: EventChecker) -> Non
     client = env.client()
     reps = {'bbb': ('bbb_v7', 240, 10), 'tears': ('tears_v1', 240, 16)}
     trex = {}
+    starts = {}
     for (d, n), buf in env.stored.items():
-        trex[n] = ib.index_file(buf).trex
+        sf_ = ib.index_file(buf)
+        trex[n] = sf_.trex
+        acc, st = 0, []
+        for sg in sf_.segments:
+            st.append(acc)
+            acc += sg.duration
+        starts[n] = st
+        if d == 'syn' and sf_.handler == b'vide':
+            # synthetic video whose segments all have different durations (90 kHz)
+            reps['syn'] = (n, sf_.timescale, len(sf_.segments))
     n_runs = ctx.scale(10**6, 10**7)
     for i in range(n_runs):
         stream = rng.choice(list(reps))
@@ -222,7 +232,7 @@ def run_http(ctx: ShardCtx, res: ShardResult, env, checker: EventChecker) -> Non
                 if mode == 'vod':
                     urls.append(f'/dash/vod/{stream}/{rid}/{n}.m4v' + qs(params))
                 else:
-                    urls.append(f'/dash/vod/{stream}/{rid}/time/{(n - 1) * 960}.m4v' + qs(params))
+                    urls.append(f'/dash/vod/{stream}/{rid}/time/{starts[rid][n - 1]}.m4v' + qs(params))
             env.clock.set(datetime.datetime(2024, 3, 3, 3, 3, 3, tzinfo=UTC))
             label = f'{mode} {stream}/{rid} segments {first}..{last}'
             replay['run']['urls'] = urls
@@ -232,7 +242,9 @@ def run_http(ctx: ShardCtx, res: ShardResult, env, checker: EventChecker) -> Non
             manifest = rng.choice(['hand_made.mpd', 'manifest_n.mpd'])
             depth = rng.choice([12, 16, 30, 44, 60, 90, 130, 240])
             # the presentation clock is small so that schedules (start/count) fall inside the window
-            elapsed = rng.choice([depth + 1, depth + rng.randrange(0, 200), rng.randrange(depth, 10 * depth + 100)])
+            elapsed = rng.choice([depth + 1, depth + rng.randrange(0, 200), rng.randrange(depth, 10 * depth + 100),
+                                  # days of uptime: the 33 bit PTS of SCTE-35 wraps every 26.5 hours
+                                  95443 + rng.randrange(-30, 300), rng.randrange(2, 60) * 86400 + rng.randrange(86400)])
             now = datetime.datetime(2024, 7, 1, 0, 0, 0, tzinfo=UTC) + datetime.timedelta(
                 seconds=elapsed, microseconds=rng.choice([0, 1, 500000, rng.randrange(10**6)]))
             mp = dict(params)
@@ -445,6 +457,8 @@ def run_shard(ctx: ShardCtx) -> ShardResult:
     try:
         env.add_fixture_stream('bbb', only={'bbb_v7', 'bbb_a1'})
         env.add_fixture_stream('tears', only={'tears_v1', 'tears_a1'})
+        from dlv import synth
+        synth.add_synthetic_streams(env, ctx, res)
         reach = Reach([
             ('dashlive.server.events.repeating_event_base', 'RepeatingEventBase.create_emsg_boxes'),
             ('dashlive.server.events.repeating_event_base', 'RepeatingEventBase.create_manifest_context'),
